@@ -1,93 +1,65 @@
-"""C31: the decision-relevant shape of the policy-compiler CLI's `main` and the polarity of
-`validate`, translated from the source on every run.
+"""C31: the one fact about the policy-compiler CLI's `main` that the Lean model imports.
 
 Generated `AranyaV.Gen.CliMain`:
-  * `guardNegated`            -- does `main` negate `validate`'s result in its reject-guard?
-  * `validateTrueMeansFailed` -- does `validate` return `true` when a trace failed?
-Anything else than the recognised shapes is a hard failure of the tie.
+  * `guardNegated`    -- in the CLI path, `validate(&module)` is called under the
+                         `--no-validate` flag and a `true` (false if negated) result leads to
+                         `return ExitCode::FAILURE`; this is whether the call is negated (`!validate`).
+  * `guardRecognised` -- the guard has one of the shapes below.  `Props/C31` requires it to be
+                         `true`; an unknown shape therefore breaks only C31 (whose harness then decides
+                         semantically by running the real binary), not the translator run of every
+                         other property.
+
+Everything else about `main` (order of parse / compile / validate / write, exit codes of the
+front-end errors, `--stub-ffi`) and the meaning of `validate`'s result (true = a trace failed, for
+the first, a middle or the last label alike) is decided semantically by `harness/src/bin/c31.rs`
+against the real binary and the real library, so refactors of `validate()` (early returns, let-else,
+helper extraction) or of `main` that preserve behaviour do not disturb the tie.
+
+Recognised guard shapes (whitespace-insensitive, comments stripped):
+    if !args.no_validate && [!]validate(&module) { return ExitCode::FAILURE; }
+    if !args.no_validate { if [!]validate(&module) { return ExitCode::FAILURE; } }
+    let <x> = [!]validate(&module); … if !args.no_validate && [!]<x> { return ExitCode::FAILURE; }   (lazy
+      evaluation differs, the result does not)
 """
 import re
 from extract import read, strip_comments, Fail
 
 MAIN = "crates/aranya-policy-compiler/src/bin/policy-compiler/main.rs"
-VALIDATE = "crates/aranya-policy-compiler/src/validate.rs"
-
-
-def fn_body(src, name, rel):
-    m = re.search(r"\bfn\s+" + re.escape(name) + r"\s*\([^)]*\)[^{]*\{", src)
-    if not m:
-        raise Fail(f"{rel}: fn {name} not found")
-    i = m.end(); depth = 1; j = i
-    while depth and j < len(src):
-        if src[j] == "{": depth += 1
-        elif src[j] == "}": depth -= 1
-        j += 1
-    if depth:
-        raise Fail(f"{rel}: fn {name}: unbalanced braces")
-    return src[i:j - 1]
 
 
 def gen():
-    main = fn_body(strip_comments(read(MAIN)), "main", MAIN)
-    flat = re.sub(r"\s+", " ", main)
-
-    # 1. control-flow landmarks must appear in this order (the model `cli` is this sequence)
-    marks = ["read_to_string(&args.file)", "parse_policy_document(", ".compile()", "validate(&module)",
-             "if args.stub_ffi", "File::create(", "into_writer("]
-    pos = -1
-    for mk in marks:
-        p = flat.find(mk, pos + 1)
-        if p < 0:
-            raise Fail(f"{MAIN}: main: landmark `{mk}` missing or out of order")
-        pos = p
-    if flat.count("validate(") != 1:
-        raise Fail(f"{MAIN}: main: expected exactly one call of validate")
-    # every early exit between parse and the end is one of these two
-    n_fail = flat.count("return ExitCode::FAILURE")
-    n_succ = flat.count("ExitCode::SUCCESS")
-    if n_fail != 3 or n_succ != 2:
-        raise Fail(f"{MAIN}: main: expected 3 FAILURE returns and 2 SUCCESS exits, found {n_fail}/{n_succ}")
-
-    # 2. the reject-guard
-    m = re.search(r"if ([^{}]*validate\(&module\)[^{}]*) \{ return ExitCode::FAILURE; \}", flat)
-    if not m:
-        raise Fail(f"{MAIN}: main: guard `if … validate(&module) … {{ return ExitCode::FAILURE; }}` not found")
-    guard = m.group(1).replace(" ", "")
-    if guard == "!args.no_validate&&!validate(&module)":
-        negated = True
-    elif guard == "!args.no_validate&&validate(&module)":
-        negated = False
+    src = strip_comments(read(MAIN))
+    if not re.search(r"\bfn\s+main\s*\(", src):
+        raise Fail(f"{MAIN}: fn main not found")
+    flat = re.sub(r"\s+", "", src)
+    calls = flat.count("validate(&module)")
+    negated, recognised, why = False, False, ""
+    fail = r"\{returnExitCode::FAILURE;?\}"
+    m = re.search(r"if!args\.no_validate&&(!?)validate\(&module\)" + fail, flat) or \
+        re.search(r"if!args\.no_validate\{if(!?)validate\(&module\)" + fail + r"\}", flat)
+    if calls != 1:
+        why = f"expected exactly one call `validate(&module)` in the CLI, found {calls}"
+    elif m:
+        negated, recognised = (m.group(1) == "!"), True
     else:
-        raise Fail(f"{MAIN}: main: unrecognised validation guard `{m.group(1)}`")
-
-    # 3. polarity of validate
-    vsrc = strip_comments(read(VALIDATE))
-    vb = re.sub(r"\s+", " ", fn_body(vsrc, "validate", VALIDATE)).strip()
-    if not re.search(r"\) -> bool", re.sub(r"\s+", " ", vsrc)):
-        raise Fail(f"{VALIDATE}: validate does not return bool")
-    if "let mut failed = false;" not in vb or "failed = true;" not in vb:
-        raise Fail(f"{VALIDATE}: validate: `failed` flag protocol not recognised")
-    # `failed = true` must sit inside the loop over trace failures
-    loop = re.search(r"for TraceFailure \{[^}]*\} in failures \{(.*?)\} \} Err\(", vb)
-    if not loop or "failed = true;" not in loop.group(1):
-        raise Fail(f"{VALIDATE}: validate: `failed = true` is not set per reported TraceFailure")
-    if vb.endswith("} failed"):
-        true_means_failed = True
-    elif vb.endswith("} !failed"):
-        true_means_failed = False
-    else:
-        raise Fail(f"{VALIDATE}: validate: tail expression not recognised: …{vb[-30:]}")
-
+        m2 = re.search(r"let(\w+)=(!?)validate\(&module\);", flat)
+        if m2:
+            m3 = re.search(r"if!args\.no_validate&&(!?)" + re.escape(m2.group(1)) + fail, flat)
+            if m3:
+                negated, recognised = ((m2.group(2) == "!") != (m3.group(1) == "!")), True
+        if not recognised:
+            why = "the guard around `validate(&module)` has none of the recognised shapes"
     b = lambda x: "true" if x else "false"
+    esc = why.replace('"', "'")
     return f"""namespace AranyaV.Gen.CliMain
 
-/-- `main` in {MAIN} rejects when `!args.no_validate && [!]validate(&module)`;
-this is whether the `!` in front of `validate` is present. -/
+/-- `main` in {MAIN} rejects (`return ExitCode::FAILURE`) when
+`!args.no_validate && [!]validate(&module)`; this is whether the `!` in front of `validate` is present. -/
 def guardNegated : Bool := {b(negated)}
 
-/-- `validate` in {VALIDATE} returns its `failed` flag
-(`true` = at least one trace failure was reported). -/
-def validateTrueMeansFailed : Bool := {b(true_means_failed)}
+/-- the validation guard of `main` has a shape the translator recognises -/
+def guardRecognised : Bool := {b(recognised)}
+def guardUnrecognisedWhy : String := "{esc}"
 
 end AranyaV.Gen.CliMain
 """
